@@ -1,4 +1,5 @@
 use crate::{Ctx, Report};
+pub mod c01;
 pub mod c02;
 pub mod c03;
 pub mod c04;
@@ -10,6 +11,8 @@ pub mod probe;
 
 pub fn run(name: &str, ctx: &Ctx, rep: &mut Report) -> bool {
   match name {
+    "c01" => c01::run(ctx, rep),
+    "c01-expect" => c01::expect(ctx, rep),
     "c02" => c02::run(ctx, rep),
     "c03" => c03::run(ctx, rep),
     "c04" => c04::run(ctx, rep),
